@@ -89,6 +89,7 @@ def cases(tier, seed=0):
   cs += _ea.energy_override_cases('setfl', tier)
   cs += _ea.cutoff_arg_cases('setfl', tier)
   cs += _ea.long_label_cases('setfl', tier)
+  cs += _ea.pair_iterable_cases('setfl', tier)
   return cs
 
 
